@@ -28,6 +28,9 @@ import (
 type C12Op struct {
 	File    int        `json:"file"`
 	Journal *m.Journal `json:"journal"`
+	// Unsaved: the text reaches the workspace (UpdateFile, as didOpen / didChange do) before it is
+	// written to the file; the step that follows saves it. The views are compared after the save.
+	Unsaved bool `json:"unsaved,omitempty"`
 }
 
 type C12Case struct {
@@ -330,12 +333,21 @@ func c12Check(c *C12Case) (ds []ev.Discrepancy, cls []string) {
 				classes["include-pattern"] = true
 			}
 		}
+		wasThere := cur[op.File] != nil
 		cur[op.File] = op.Journal
+		path := filepath.Join(root, c.name(op.File))
+		if op.Unsaved {
+			// the buffer first (a new file is not on disk yet), then the save
+			classes["update-before-the-file-is-written"] = true
+			if !wasThere {
+				classes["new-file-known-before-it-exists"] = true
+			}
+			inc.UpdateFile(path, m.Render(op.Journal).Text)
+		}
 		txt := write(op.File)
 		if c.MaxSize > 0 && (before > c.MaxSize) != (len(txt) > c.MaxSize) {
 			classes["update-crosses-size-limit"] = true
 		}
-		path := filepath.Join(root, c.name(op.File))
 		// what didChange / didSave do
 		inc.UpdateFile(path, txt)
 		loader.InvalidateFile(path)
@@ -466,8 +478,9 @@ func TestC12(t *testing.T) {
 			} else {
 				j = withPattern(f, gen.GenFileWithIncludes(t, p, pools, c12JOpts, f, total))
 			}
+			unsaved := !disabled("c12.unsaved-first") && (cur[f] == nil || rapid.IntRange(0, 3).Draw(t, "unsavedfirst") == 0) && rapid.Bool().Draw(t, "unsaved")
 			cur[f] = j
-			c.Ops = append(c.Ops, C12Op{File: f, Journal: j})
+			c.Ops = append(c.Ops, C12Op{File: f, Journal: j, Unsaved: unsaved})
 		}
 		if !disabled("c12.root-by-graph") && rapid.IntRange(0, 3).Draw(t, "rootbygraph") == 0 {
 			c.RootName = "00-all.journal"
